@@ -21,7 +21,7 @@ Definition obs1_eqb (a b : obs1) : bool :=
 
 Lemma cval_eqb_spec a b : cval_eqb a b = true <-> a = b.
 Proof.
-  destruct a as [x|i|i], b as [y|j|j]; cbn; try (split; intros H; discriminate).
+  destruct a as [x|i|i| |], b as [y|j|j| |]; cbn; try (split; intros H; (discriminate || reflexivity)).
   - rewrite Z.eqb_eq. split; intros H; [congruence | now inversion H].
   - rewrite Nat.eqb_eq. split; intros H; [congruence | now inversion H].
   - rewrite Nat.eqb_eq. split; intros H; [congruence | now inversion H].
@@ -72,6 +72,7 @@ Inductive iout :=
 Inductive item :=
 | IProbe (c : nat) (vals : list cval) (o : opnd)
 | IAll (c : nat) (dom : list Z)                 (* all ordered pairs over dom^k *)
+| IAllV (c : nat) (dom : list cval)              (* all ordered pairs over dom^k, any values (None, '', …) *)
 | IRow (c : nat) (dom : list Z) (xv : list Z)    (* x fixed, y ranges over dom^k *)
 | IPair (c : nat) (xv : list Z) (c' : nat) (yv : list Z)   (* two distinct int-valued instances, coded *)
 (** a history on two int-valued instances of one class: compare; hash both; compare again;
@@ -139,6 +140,11 @@ Definition run_item (chain : list cls) (sc : script) (it : item) : iout :=
   | IAll c dom =>
       let attrs := attrs_at chain c in
       let vs := vectors (map Vi dom) (length attrs) in
+      OAll (flat_map (fun xv => map (fun yv =>
+              code (run_pair chain sc (mk_inst c attrs xv) (OInst (mk_inst c attrs yv)) false)) vs) vs)
+  | IAllV c dom =>
+      let attrs := attrs_at chain c in
+      let vs := vectors dom (length attrs) in
       OAll (flat_map (fun xv => map (fun yv =>
               code (run_pair chain sc (mk_inst c attrs xv) (OInst (mk_inst c attrs yv)) false)) vs) vs)
   | IRow c dom xv =>
